@@ -1,4 +1,4 @@
-import CJ.Model.ReloadPath
+import CJ.Model.ReloadRound
 import CJ.Gen.ReloadPath
 import CJ.Drv.Util
 /-! Driver for the reload goroutine's model (C13, main() harness).
@@ -28,9 +28,7 @@ def handle : List String → Option String
     let subOK := newSel != "-" && ccOK
     let nsel ← if newSel != "-" then parseNatList newSel "." else some []
     let ngen ← if ccOK then newGen.toNat? else some 0
-    let rounds := CJ.Gen.ReloadPath.sighupRounds.filter fun r =>
-      hasSelWrite r == subOK && r.contains (.wr apiGenField) == ccOK && r.contains (.wr dnsGenField) == ccOK
-    let round ← match rounds with | [r] => some r | _ => none
+    let round ← roundOf CJ.Gen.ReloadPath.sighupRounds ccOK subOK
     let selIdx ← CJ.Gen.ReloadPath.mutexes.findIdx? (fun m => m.1 == "regprocessor.RegProcessor.selectorMutex")
     let pre ← match phase with
       | "before" => some []
